@@ -128,10 +128,16 @@ func c03altalgo(env *core.Env) {
 		GetManifest_: func(ctx context.Context, rp string, d ociregistry.Digest) (ociregistry.BlobReader, error) {
 			return open(lookup(rp, d, true))
 		},
-		GetTag_:          func(ctx context.Context, rp, tag string) (ociregistry.BlobReader, error) { return open(byTag(rp, tag)) },
-		ResolveBlob_:     func(ctx context.Context, rp string, d ociregistry.Digest) (ociregistry.Descriptor, error) { return descOf(lookup(rp, d, false)) },
-		ResolveManifest_: func(ctx context.Context, rp string, d ociregistry.Digest) (ociregistry.Descriptor, error) { return descOf(lookup(rp, d, true)) },
-		ResolveTag_:      func(ctx context.Context, rp, tag string) (ociregistry.Descriptor, error) { return descOf(byTag(rp, tag)) },
+		GetTag_: func(ctx context.Context, rp, tag string) (ociregistry.BlobReader, error) { return open(byTag(rp, tag)) },
+		ResolveBlob_: func(ctx context.Context, rp string, d ociregistry.Digest) (ociregistry.Descriptor, error) {
+			return descOf(lookup(rp, d, false))
+		},
+		ResolveManifest_: func(ctx context.Context, rp string, d ociregistry.Digest) (ociregistry.Descriptor, error) {
+			return descOf(lookup(rp, d, true))
+		},
+		ResolveTag_: func(ctx context.Context, rp, tag string) (ociregistry.Descriptor, error) {
+			return descOf(byTag(rp, tag))
+		},
 	}
 	o := &stackOpts{OneByte: c.Bool("onebyte", 1, 10), EOFData: c.Bool("eofdata", 1, 4)}
 	o.Server.OmitDigestFromTagGetResponse = c.Bool("omitdigest", 1, 3)
